@@ -154,10 +154,19 @@ static void mark_defined(Req *r)
     }
 }
 
-static int define_schema(const char *path, int *ncidp, int *vid)
+static int define_schema(const char *path, int *ncidp, int *vid, int oracle_file)
 {
     int ncid, d[5], i, k, err;
-    err = ncmpi_create(MPI_COMM_WORLD, path, NC_CLOBBER | NC_64BIT_DATA, MPI_INFO_NULL, &ncid);
+    MPI_Info info = MPI_INFO_NULL;
+    if (oracle_file) {
+        /* file B is written by independent blocking calls of several ranks: without data sieving every
+           noncontiguous write touches only its own bytes, so concurrent writers cannot lose each other's data */
+        MPI_Info_create(&info);
+        MPI_Info_set(info, "romio_ds_write", "disable");
+        MPI_Info_set(info, "romio_ds_read", "disable");
+    }
+    err = ncmpi_create(MPI_COMM_WORLD, path, NC_CLOBBER | NC_64BIT_DATA, info, &ncid);
+    if (info != MPI_INFO_NULL) MPI_Info_free(&info);
     if (err) return err;
     ncmpi_def_dim(ncid, "t", NC_UNLIMITED, &d[0]);
     ncmpi_def_dim(ncid, "y", 6, &d[1]);
@@ -269,7 +278,19 @@ static int post(Req *r)
 }
 
 /* the spec says these handles complete now: issue them on B (puts first, then gets), compare */
-static void oracle_complete(int nexp, int *exp)
+static void oracle_complete1(int nexp, int *exp);
+/* with several ranks (every rank is inside the same collective wait) the ranks take turns */
+static void oracle_complete(int nexp, int *exp, int coll)
+{
+    int r;
+    if (!coll || nprocs == 1) { oracle_complete1(nexp, exp); return; }
+    for (r = 0; r < nprocs; r++) {
+        if (r == rank) { oracle_complete1(nexp, exp); ncmpi_sync(ncB); }
+        MPI_Barrier(MPI_COMM_WORLD);
+    }
+}
+
+static void oracle_complete1(int nexp, int *exp)
 {
     int k, pass;
     for (pass = 0; pass < 2; pass++)
@@ -406,8 +427,8 @@ int main(int argc, char **argv)
             {   int v; size_t k;
                 memset(defmask, 0, sizeof defmask);
                 for (v = 0; v < NVARS; v++) for (k = 0; k < (visrec[v] ? NREC0 : 1) * recelems(v); k++) defmask[v][k] = 1; }
-            err = define_schema(pa, &ncA, vidA); if (err) { fprintf(out, "D schemaA err=%d\n", err); }
-            err = define_schema(pb, &ncB, vidB); if (err) { fprintf(out, "D schemaB err=%d\n", err); }
+            err = define_schema(pa, &ncA, vidA, 0); if (err) { fprintf(out, "D schemaA err=%d\n", err); }
+            err = define_schema(pb, &ncB, vidB, 1); if (err) { fprintf(out, "D schemaB err=%d\n", err); }
             ncmpi_begin_indep_data(ncB);
             if (ab > 0) { err = ncmpi_buffer_attach(ncA, ab); if (err) fprintf(out, "D attach err=%d\n", err); }
             {   int v; MPI_Offset off, rs;
@@ -503,13 +524,13 @@ int main(int argc, char **argv)
                     e2 = (mode == 'c') ? ncmpi_wait_all(ncA, 1, one, s1) : ncmpi_wait(ncA, 1, one, s1);
                     ncmpi_inq_nreqs(ncA, &n2);
                     fprintf(out, "R h%d err=%d ids=%d st=%d n=%d", h, e2, one[0], s1[0], n2); qdump(ncA); fprintf(out, "\n");
-                    if (e2 != NC_EINVAL_REQUEST && one[0] == NC_REQ_NULL) { int ex[1] = {h}; oracle_complete(1, ex); }
+                    if (e2 != NC_EINVAL_REQUEST && one[0] == NC_REQ_NULL) { int ex[1] = {h}; oracle_complete(1, ex, 0); }
                 }
                 err = ncmpi_cancel(ncA, NC_REQ_ALL, NULL, NULL);
                 ncmpi_inq_nreqs(ncA, &n2);
                 fprintf(out, "K err=%d n=%d", err, n2); qdump(ncA); fprintf(out, "\n");
                 dead = 1;
-            } else if (isw) oracle_complete(nexp, exp);
+            } else if (isw) oracle_complete(nexp, exp, 1);
             continue;
         }
     }
